@@ -351,8 +351,11 @@ func init() {
 		x.thresholdSweep(fns, streamValid, 40, 40)
 	}
 	props["C10"] = func(x *Ctx) {
-		x.runesFor(both, 80000*x.scale)
-		x.bytesFor(both, 80000*x.scale)
+		x.limit *= 3
+		for k := 0; k < 4; k++ {
+			x.bytesFor(both, 20000*x.scale)
+			x.runesFor(both, 20000*x.scale)
+		}
 		x.everyCodePoint()
 	}
 	props["C11"] = func(x *Ctx) {
